@@ -656,7 +656,7 @@ func mkCase(r *Rng, g c03Gen) c03Case {
 }
 
 func runC03(c *Ctx) {
-	c.Res.Rule = "cases = lists of 1..4 valid compatible profiles: (a) random families over a shared universe of entities (variants: renumbered/colliding ids, re-mapped binaries, negated/zeroed values, one-attribute tweaks, shuffled tables, self-duplicates), (b) enumerated near-duplicate pairs — for every field of Function/Line/Location/Mapping/labels two variants of that one field (original, empty/zero, equal to a sibling field such as SystemName=Name or BuildID=File, equal to the other entity's value, near miss), all pairs in both orders, plus hand-written pairs: one attribute of function/line/location/mapping/label/stack changed — in three placements (two inputs with colliding ids, one input, two inputs with ASLR) x two value signs, (c) label soups over tiny byte/number alphabets and digit soups (inline chains whose line/column numbers share hex digits) — inputs on which an encoding that loses a field boundary collides, (d) header grids, (e) cancelling inputs (re-merge path), (f) incompatible inputs, (g) families of 2-4 files merged by the pprof binary (pprof -proto a b ...; profiles for which parsing, symbolization, demangling and frame pruning are the identity: mappings with HasFunctions, plain function names, no drop/keep frames, inputs fixed points of Write/Parse); non-trivial = the real Merge hit a memo table (result has fewer samples or locations than the non-zero inputs put in); distinct by canonical text of the inputs"
+	c.Res.Rule = "cases = lists of 1..4 valid compatible profiles: (a) random families over a shared universe of entities (variants: renumbered/colliding ids, re-mapped binaries, negated/zeroed values, one-attribute tweaks, shuffled tables, self-duplicates), (b) enumerated near-duplicate pairs — for every field of Function/Line/Location/Mapping/labels two variants of that one field (original, empty/zero, equal to a sibling field such as SystemName=Name or BuildID=File, equal to the other entity's value, near miss), all pairs in both orders, plus hand-written pairs: one attribute of function/line/location/mapping/label/stack changed — in three placements (two inputs with colliding ids, one input, two inputs with ASLR) x two value signs, (c) label soups over tiny byte/number alphabets and digit soups (inline chains whose line/column numbers share hex digits) — inputs on which an encoding that loses a field boundary collides; segmentation soups: every way of reading one word of small numbers as an inline chain (lines taking 3, 2 or 1 numbers, merged function ids pinned to 1..5) or as stack ids | string label | numeric label | units, within one profile and across inputs, (d) header grids, (e) cancelling inputs (re-merge path), (f) incompatible inputs, (g) families of 2-4 files merged by the pprof binary (pprof -proto a b ...; profiles for which parsing, symbolization, demangling and frame pruning are the identity: mappings with HasFunctions, plain function names, no drop/keep frames, inputs fixed points of Write/Parse); non-trivial = the real Merge hit a memo table (result has fewer samples or locations than the non-zero inputs put in); distinct by canonical text of the inputs"
 	if c.Replay != "" {
 		var cs c03Case
 		if err := c.LoadReplay(&cs); err != nil {
@@ -741,6 +741,12 @@ func runC03(c *Ctx) {
 		}
 		if i%4 == 1 {
 			one(genDigitSoup(r), false)
+		}
+		if i%8 == 2 { // ambiguous concatenation: every segmentation of a word as inline chains / as sample-key parts
+			one(genLineSegSoup(r, i%16 == 2), i%32 == 2)
+		}
+		if i%8 == 6 {
+			one(genKeySegSoup(r, i%16 == 6), i%32 == 6)
 		}
 		if i%10 == 0 { // Compact of a single profile (with garbage: unreferenced entities)
 			g := GenProfile(r, &c03Bases[i%len(c03Bases)].o)
